@@ -6,11 +6,13 @@ props = [json.loads(l) for l in open(os.path.join(V, 'properties.jsonl'))]
 TECH = "SMT-based symbolic execution of the real Go SSA (own engine gosym, z3 decides every branch and assertion within the stated bounds); counterexamples and sampled path witnesses replayed natively"
 TRUST = "trusted base: go/ssa construction, the gosym interpreter and its listed stubs, z3 4.8.12; bounds as listed in checks/%s.json and repeated in the evidence file; nothing is claimed outside them"
 claims = {
+ "C11": ("model_checking", "the real rateLimitMiddleware -> RateLimitMiddleware chain on a virtual clock: symbolic declared N, every window spelling, greedy arrivals on a time grid, against the property's bound N x (1+T/window); client identity (port, forwarding headers) with symbolic bytes", "section 4 C11"),
  "C13": ("model_checking", "symbolic identifier/operator/direction/join/column-type byte strings through the real sanitizers, QueryBuilder.Build and ORM statement builders; the produced SQL must equal the fixed template over identifiers that satisfy an independently written safe grammar, with values only in the bound-argument list. Text structure only: execution against a real database is not claimed", "section 4 C13"),
  "C20": ("model_checking", "bounded symbolic execution of the real LRUCache code against a reference LRU: every feasible path of every operation history within the bounds is decided by z3; termination of Set is an unwinding obligation", "section 4 C20"),
  "C05": ("model_checking", "Router.Match on symbolic route tables and symbolic request paths against the declarative most-specific-match rule; all table shapes/orders within the bounds", "section 4 C05"),
  "C02": ("translation_validation", "differential execution of the two engines (interpreter.ExecuteRoute vs compiler.CompileRoute+vm.Execute) on symbolic-leaf program templates: for every operator, operand kind and payload within the bounds z3 decides whether the outcomes can differ", "section 4 C02"),
  "C03": ("translation_validation", "-O1/-O2 bytecode against -O0 bytecode on the VM for pointer-form AST templates with symbolic literals and a free variable of every runtime kind: z3 decides whether any literal value / runtime value makes the optimised program's outcome differ", "section 4 C03"),
+ "C06": ("model_checking", "the real routeMiddlewares chain (authMiddleware, apiKeyMiddleware, denyAll, BasicAuthMiddleware with lockout) on symbolic credential sources and headers against an independently written credential predicate; lockout histories on a virtual clock", "section 4 C06"),
  "C10": ("model_checking", "symbolic byte buffers through the real bytecode loader and VM (step limit, allocation bound and termination as implicit assertions) and symbolic source bytes through the real lexer and parser", "section 4 C10"),
 }
 NA_REASON = {}
